@@ -623,7 +623,7 @@ class FormulaMaterializer(metaclass=FormulaMaterializerMeta):
             if (
                 factor.expr in spec.encoder_state
                 and value.__formulaic_metadata__.kind
-                is not spec.encoder_state[factor.expr][0]
+                is not Factor.Kind(spec.encoder_state[factor.expr][0])
             ):
                 raise FactorEncodingError(
                     f"The model specification expects factor `{factor}` to have values of kind "
